@@ -163,6 +163,10 @@ class _Limit(object):
         direction is probably wild enough here. The actual
         trimming factor is defined as a parameter.
         """
+        if np.iscomplexobj(der):
+            # percentiles are not defined for complex data: penalize real and imaginary parts
+            return (_Limit._add_error_to_outliers(np.real(der), trim_fact)
+                    + _Limit._add_error_to_outliers(np.imag(der), trim_fact))
         try:
             if np.any(np.isnan(der)):
                 p25, median, p75 = np.nanpercentile(der, [25,50, 75], axis=0) 
